@@ -1314,10 +1314,12 @@ impl<'k> Gen<'k> {
                 {
                     v.definite = true;
                 }
-                let cond = if self.rng.chance(1, 2) {
-                    Expr::bin(BinOp::Lt, Expr::id(&var), Expr::Num(m))
-                } else {
-                    Expr::bin(BinOp::Ne, Expr::id(&var), Expr::Num(m))
+                // "for as long as c evaluates non-zero": 1, any positive, any negative value
+                let cond = match self.rng.below(5) {
+                    0 | 1 => Expr::bin(BinOp::Lt, Expr::id(&var), Expr::Num(m)),
+                    2 => Expr::bin(BinOp::Ne, Expr::id(&var), Expr::Num(m)),
+                    3 => Expr::bin(BinOp::Sub, Expr::id(&var), Expr::Num(m)),
+                    _ => Expr::bin(BinOp::Sub, Expr::Num(m), Expr::id(&var)),
                 };
                 Some((
                     vec![
@@ -1476,8 +1478,22 @@ pub fn gen_case(rng: Rng, knobs: &Knobs) -> Case {
     let mut rng = g.rng.fork();
 
     if knobs.layout_may_miss_read && rng.chance(1, 3) && !dut.layout.is_empty() {
-        let at = rng.usize(dut.layout.len());
-        dut.layout.remove(at);
+        // the driver lacks one, several or all of the outputs it was assumed to supply when
+        // the program was generated: the constructor must refuse if any of them is read
+        match rng.below(3) {
+            0 => {
+                let at = rng.usize(dut.layout.len());
+                dut.layout.remove(at);
+            }
+            1 => {
+                let n = 1 + rng.usize(dut.layout.len());
+                for _ in 0..n {
+                    let at = rng.usize(dut.layout.len());
+                    dut.layout.remove(at);
+                }
+            }
+            _ => dut.layout.clear(),
+        }
     }
     let _ = (&Fault {
         at_call: 0,
